@@ -48,6 +48,7 @@ func genC29Node(r *simrt.Rand, tier string) *simrt.Plan {
 	p := &simrt.Plan{Knobs: map[string]int64{"mode": 2, "nodes": int64(nodes), "replicas": 1, "pool": int64(simrt.Pick(r, 0, 1, 2, 8)),
 		"quantum": int64(r.Intn(3)), "cache": int64(r.Intn(3))}, Sched: dbSched(r)}
 	uniq := int64(0)
+	valHeavy := r.Bool(0.25)
 	// shards: few, so that several clients create the same new fragment at once
 	shards := []int64{0, 1, int64(2 + r.Intn(3))}
 	for ci := 0; ci < nclients; ci++ {
@@ -58,7 +59,11 @@ func genC29Node(r *simrt.Rand, tier string) *simrt.Plan {
 			sh := shards[r.Intn(len(shards))]
 			col := sh*int64(pilosa.ShardWidth) + uniq*7%65536 + int64(r.Intn(2))*65536*3
 			row := int64(r.Intn(3))
-			switch x := r.Intn(14); {
+			x := r.Intn(14)
+			if valHeavy && r.Bool(0.5) {
+				x = 6
+			}
+			switch {
 			case x < 4: // S=[field] I=[row, col, node, ts]
 				f := simrt.Pick(r, "s", "s", "t")
 				ts := int64(0)
@@ -74,7 +79,13 @@ func genC29Node(r *simrt.Rand, tier string) *simrt.Plan {
 				}
 				ops = append(ops, simrt.Op{K: "import", S: []string{"s"}, I: I})
 			case x < 7:
-				ops = append(ops, simrt.Op{K: "setval", S: []string{"v"}, I: []int64{uniq % 1000, col, int64(r.Intn(nodes))}})
+				// values of very different magnitudes: concurrent writers each find the field's
+				// bit depth too small and grow it to what their own value needs
+				val := uniq % 1000
+				if r.Bool(0.6) {
+					val = int64(1)<<uint(r.Intn(17)) - int64(r.Intn(2))
+				}
+				ops = append(ops, simrt.Op{K: "setval", S: []string{"v"}, I: []int64{val, col, int64(r.Intn(nodes))}})
 			case x < 8: // clear one of this client's earlier bits
 				ops = append(ops, simrt.Op{K: "clearmine", I: []int64{int64(r.Intn(8)), int64(r.Intn(nodes))}})
 			case x < 11:
